@@ -11,6 +11,7 @@
 #include "gen.hpp"
 #include "place_detailed/incr_net_model.hpp"
 #include "place_global/density_grid.hpp"
+#include "place_detailed/place_detailed.hpp"
 #include "project.hpp"
 #include "trace.hpp"
 
@@ -74,6 +75,37 @@ static void scenario(const std::string &scen, int run, Circuit base, const Coloq
     rs.set("run", run).set("circ", vp::circuitToJson(a)).set("wl", a.hpwl());
     vt::emit(rs);
     if (call(cx, a, "A", "legalize", p)) call(cx, a, "A", "legalize", p);
+  } else if (scen == "passes") {
+    // C02 / C05: the optimiser passes of detailed placement driven directly, in random order with random window arguments
+    Circuit a = base;
+    Ctx quiet{run, false, false};
+    if (!call(quiet, a, "A", "legalize", p)) return;
+    vg::Rng r((uint64_t)run * 577 + 29);
+    try {
+      DetailedPlacer pl(a, p);
+      int nPasses = (int)r.in(3, 10);
+      for (int k = 0; k < nPasses; ++k) {
+        int kind = (int)r.in(0, 5);
+        std::string op;
+        int a1 = 0, a2 = 0;
+        if (kind == 0) { op = "swaps"; a1 = (int)r.in(0, 4); a2 = (int)r.in(0, 16); pl.runSwaps(a1, a2); }
+        else if (kind == 1) { op = "inserts"; a1 = (int)r.in(0, 4); a2 = (int)r.in(0, 16); pl.runInserts(a1, a2); }
+        else if (kind == 2) { op = "shifts"; a1 = (int)r.in(1, 5); a2 = (int)r.pick(std::vector<int>{2, 3, 10, 50, 120}); pl.runShifts(a1, a2); }
+        else if (kind == 3) { op = "reordering"; a1 = (int)r.in(1, 3); a2 = (int)r.in(1, 5); pl.runReordering(a1, a2); }
+        else if (kind == 4) { op = "swapsOneRow"; a1 = 0; a2 = (int)r.in(0, 8); pl.runSwapsOneRow(a1, a2); }
+        else { op = "insertsOneRow"; a1 = 0; a2 = (int)r.in(0, 8); pl.runInsertsOneRow(a1, a2); }
+        pl.check();
+        pl.exportPlacement(a);
+        Value e = vt::ev("Pass");
+        e.set("run", run).set("obj", "A").set("op", op).set("a1", a1).set("a2", a2).set("k", k);
+        e.set("circ", vp::circuitToJson(a)).set("wl", a.hpwl()).set("value", pl.value());
+        vt::emit(e);
+      }
+    } catch (std::exception &ex) {
+      Value e = vt::ev("PassThrow");
+      e.set("run", run).set("obj", "A").set("what", ex.what());
+      vt::emit(e);
+    }
   } else if (scen == "det") {
     // reference: legalization alone on a copy, then detailed placement on another copy
     Circuit a = base;
